@@ -350,14 +350,24 @@ def run_histories(ctx, hists, engine_results=None, tag="interp"):
                               {"ops": ops})
                     break
             elif op["op"] == "q" and not has_tie:
-                want = norm("ok %d %s" % (len(r["res"]), " ".join(str(i) for i in r["res"])))
+                # canonicalised: the property (and query_exact) speak about the SET of indices, the
+                # traversal order is not observable behaviour we hold the code to
+                want = norm("ok %d %s" % (len(r["res"]), " ".join(str(i) for i in sorted(r["res"]))))
+                mp = m.split()
+                if len(mp) >= 2 and mp[0] == "ok":
+                    m = norm("ok %s %s" % (mp[1], " ".join(str(i) for i in sorted(int(x) for x in mp[2:]))))
                 if m != want:
                     ctx.broke("correspondence", "query_overlap", "impl=%s model=%s" % (want[:200], m[:200]),
                               {"ops": ops})
                     break
             elif op["op"] == "qt" and not has_tie and not any(o.get("tie") for o in op["other"]):
-                flat = " ".join("%d %d" % (a, b) for a, b in r["pairs"])
+                flat = " ".join("%d %d" % (a, b) for a, b in sorted(map(tuple, r["pairs"])))
                 want = norm("ok %d %s" % (len(r["pairs"]), flat))
+                mp = m.split()
+                if len(mp) >= 2 and mp[0] == "ok":
+                    nums = [int(x) for x in mp[2:]]
+                    prs = sorted(zip(nums[0::2], nums[1::2]))
+                    m = norm("ok %s %s" % (mp[1], " ".join("%d %d" % pr for pr in prs)))
                 if m != want:
                     ctx.broke("correspondence", "query_overlap_of_other_tree",
                               "impl=%s model=%s" % (want[:200], m[:200]), {"ops": ops})
